@@ -9,6 +9,9 @@
 #include "symboldatabase.h"
 #include "vf_common.h"
 #include "simplecpp.h"
+#include "token.h"
+#include "tokenlist.h"
+#include "standards.h"
 
 #include <cstring>
 #include <stdexcept>
@@ -101,6 +104,15 @@ int main(int argc, char** argv) {
             const std::string s = unhex(f[1]);
             try { const long long v = simplecpp::characterLiteralToLL(s); std::cout << "ok:" << v << std::endl; }
             catch (const std::runtime_error& e) { std::cout << "err:" << classifyChar(e.what()) << std::endl; }
+        } else if (op == "cch" && f.size() == 2) {
+            const std::string s = unhex(f[1]);
+            if (s.empty()) { std::cout << "notchar" << std::endl; continue; }
+            Settings settings;
+            TokenList list{settings, Standards::Language::CPP};
+            list.addtoken(s, 1, 1, 0);
+            const Token* tok = list.front();
+            if (!tok || tok->tokType() != Token::eChar) std::cout << "notchar" << std::endl;
+            else std::cout << "cchar=" << B(tok->isCChar()) << " multi=" << B(tok->isCMultiChar()) << std::endl;
         } else if (op == "sfx" && f.size() == 2) {
             std::cout << hex(MathLib::getSuffix(unhex(f[1]))) << std::endl;
         } else if (op == "trunc" && f.size() == 4) {
